@@ -396,7 +396,11 @@ def r6(R, repo):
             binds.append((astu.names_stored(g.target), g.iter))
         if isinstance(a, astu.FUNC_TYPES):
           break
-      if any('zip' in (astu.call_name(x) or '') for _, it in binds for x in ast.walk(it) if isinstance(x, ast.Call)):
+      zips = [x for _, it in binds for x in ast.walk(it) if isinstance(x, ast.Call) and 'zip' in (astu.call_name(x) or '')]
+      # zip(target, state...) pairs children by position; zip(target, <index keys>) is just an enumerate
+      if any(sp in {nm_ for a_ in z_.args for e_ in evid.expand(f, a_) if isinstance(e_, ast.AST) for nm_ in astu.names_loaded(e_)} and not all(
+          isinstance(e_, ast.AST) and any(isinstance(y_, ast.Call) and astu.call_name(y_) in ('range', 'len') for y_ in ast.walk(e_)) and not any(isinstance(y_, ast.Call) and astu.call_tail(y_) in ('values', 'items') for y_ in ast.walk(e_))
+          for a_ in z_.args for e_ in evid.expand(f, a_) if isinstance(e_, ast.AST) and sp in astu.names_loaded(e_)) for z_ in zips):
         bad = (call, 'target and state are paired positionally with zip()')
         break
       S_def = S
@@ -425,7 +429,7 @@ def r6(R, repo):
         else:
           # target value bound together with the key by iterating <target>.items() / enumerate(<target>)
           for ns, it in binds:
-            if (tn & ns) and (keyvars & ns) and tp in astu.names_loaded(it) and isinstance(it, ast.Call) and astu.call_tail(it) in ('items', 'enumerate'):
+            if (tn & ns) and (keyvars & ns) and tp in astu.names_loaded(it) and isinstance(it, ast.Call) and astu.call_tail(it) in ('items', 'enumerate', 'zip'):
               ok = True
       if not ok:
         bad = (call, 'child state `%s` and child target `%s` are not tied by one key/index/field name' % (astu.short(S), astu.short(T)))
